@@ -406,6 +406,25 @@ func transplant(c *mon.Case, r *mon.Run, dir string, k int, fromServer bool, see
 		hsLenS2C int
 		hsLenC2S int
 	}
+	// the factory has served before (one or two connections, over and done
+	// with): whatever it prepares ahead of time for "the next connection" is
+	// there when the K arrive together
+	for w := 0; w < 1+int(seed%2); w++ {
+		wcw, wsw := memwire.Pair(memwire.Options{})
+		wd := make(chan struct{})
+		c.Go(func() { close(wd) }, func() {
+			if sc, err := sf.WrapConn(wsw); err == nil {
+				sc.Close()
+			}
+		})
+		if cc, err := cf.Dial("tcp", "192.0.2.2:443", func(string, string) (net.Conn, error) { return wcw, nil }, pa); err == nil {
+			cc.Close()
+		}
+		<-wd
+		wcw.Close()
+		wsw.Close()
+		synctest.Wait()
+	}
 	ends := make([]*end, k)
 	var hs sync.WaitGroup
 	start := make(chan struct{})
